@@ -221,14 +221,24 @@ namespace bloch::runtime {
         ensureQubitActive(q);
         // Compute probability of |1>, sample, and collapse the state accordingly.
         size_t bit = size_t{1} << q;
+        double p0 = 0;
         double p1 = 0;
-        for (size_t i = 0; i < m_state.size(); ++i)
+        for (size_t i = 0; i < m_state.size(); ++i) {
             if (i & bit)
                 p1 += std::norm(m_state[i]);
+            else
+                p0 += std::norm(m_state[i]);
+        }
         std::uniform_real_distribution<double> dist(0.0, 1.0);
         double r = dist(rng);
         int res = r < p1 ? 1 : 0;
-        double norm = std::sqrt(res ? p1 : 1 - p1);
+        // p1 can round to just below 1 for a qubit that is certainly 1 (and the draw can land
+        // in the gap): never collapse onto an outcome the state has no component for, and
+        // normalise by the weight the chosen branch really has rather than by 1 - p1, which
+        // cancels catastrophically when p1 is close to 1.
+        if ((res ? p1 : p0) == 0.0)
+            res = 1 - res;
+        double norm = std::sqrt(res ? p1 : p0);
         for (size_t i = 0; i < m_state.size(); ++i) {
             if (((i & bit) ? 1 : 0) != res)
                 m_state[i] = 0;
